@@ -118,11 +118,13 @@ CHECKS['C10'] = {
     'design': 'DESIGN.md section 3 C10',
 }
 CHECKS['C16'] = {
-    'technique': 'machine-checked proof in Coq (flush invariant of the pub/sub router LTS) + close-at-random-point wake-driven runs of both routers',
+    'technique': 'machine-checked proof in Coq (flush invariant of the pub/sub router LTS; closed-channel invariant of both router LTSs) + close-at-random-point wake-driven runs of both routers',
     'text': ("PROVED (pub/sub): whenever the router's future completes, the buffered message was handed over and every live subscriber holds, flushed, everything pulled since its "
              "registration. CHECKED on implementation traces of both routers: the registration channel is closed at a random point of every third history and in the final phase of "
              "40% of them; under the wake-driven executor with ready sinks the future must complete (this is what detects a channel whose waker was not re-armed), and the "
-             "completion predicates must hold. Termination (bounded polls after close) is not yet a theorem; Server::shutdown's close-then-join is exercised by the net scenarios."),
+             "completion predicates must hold (for req/rep also: every reply handed to a requestor's sink is flushed when the future completes). PROVED for both routers: once the "
+             "registration channel is closed, a poll returns Pending only in a step in which a sink answered Pending - with peers that accept data every poll after close returns Ready. "
+             "That a poll returns at all (bounded work) is checked on traces, not proved; Server::shutdown's close-then-join is exercised by the net scenarios."),
     'note': ROUTER_NOTE,
     'design': 'DESIGN.md section 3 C16',
 }
